@@ -1,6 +1,7 @@
 import BigtreeModel.Store
 import BigtreeModel.StorePath
 import BigtreeProofs.Lemmas.StorePathE
+import BigtreeProofs.Lemmas.StorePathF
 /-!
 # C03 — a Node's path identifies it: sibling names are unique, paths are exact
 
@@ -8,7 +9,9 @@ Model: `BigtreeModel/Store.lean` with `Cfg.node = true` (the `Node` class: its p
 the user hook, then the duplicate-sibling-name check) and `BigtreeModel/StorePath.lean`
 (`path_name`, `depth`, `sep`, `find_full_path` as written; strings are `List Char`).
 String-level theorems assume a single-character separator that occurs in no name, and non-empty
-names (what `Node.__init__` enforces).
+names (what `Node.__init__` enforces); the `_multi` theorems at the end cover every non-empty separator
+(`"::"`, `"->"`, …) for names that share no character with it (the exact domain on which the
+character-set stripping of `lstrip`/`rstrip` is sound: known finding K7 lies just outside).
 -/
 
 namespace C03
@@ -130,5 +133,59 @@ example : findFullPath demo 3 (pathName demo 2) = some (some 2) := by decide
 example : findFullPath demo 0 ['a', '.', 'b', '.', 'a', '.'] = some (some 2) := by decide
 example : SameTree demo 3 2 ∧ sep demo 2 = ['.'] ∧ ∀ x ∈ pathNodes demo 2, demo.name x ≠ [] ∧ '.' ∉ demo.name x := by
   decide
+
+/-! ## separators of any length
+
+`Node.sep` may be any non-empty string.  `Free sp x` : the name `x` shares no character with `sp`.
+For a one-character separator this is "`d ∉ x`" (`free_singleton`), so the theorems above are instances. -/
+
+/-- a/b/a, a/ab below a root whose separator is "::" -/
+def demo2 : Store := run nodeCfg (init 5 demoNames [':', ':']) (demoOps.take 3)
+
+theorem free_singleton (d : Char) (x : Str) : Free [d] x ↔ d ∉ x := Store.free_singleton d x
+
+/-- `sep.join(xs).split(sep) == xs` for every non-empty separator sharing no character with a piece -/
+theorem split_join_multi (sp : Str) (hsp : sp ≠ []) (xs : List Str) (hne : xs ≠ [])
+    (hd : ∀ x ∈ xs, Free sp x) : split sp (join sp xs) = xs :=
+  Store.split_join_multi sp hsp xs hne hd
+
+example : split [':', ':'] (join [':', ':'] [['a'], ['a', 'b'], ['b', '.']]) = [['a'], ['a', 'b'], ['b', '.']] := by
+  decide
+-- outside the hypothesis the law fails: a piece ending in a separator character shifts the split point
+example : split [':', ':'] (join [':', ':'] [['a', ':'], ['b']]) ≠ [['a', ':'], ['b']] := by decide
+
+/-- path names are pairwise distinct inside a tree, for every non-empty separator -/
+theorem path_name_injective_multi (s : Store) (hw : WF s) (hu : SibUnique s) (u v : Nat)
+    (hst : SameTree s u v) (hsp : sep s v ≠ [])
+    (hn : ∀ x, s.name x ≠ [] ∧ Free (sep s v) (s.name x))
+    (h : pathName s u = pathName s v) : u = v :=
+  Store.pathName_injective_multi hw hu u v hst hsp hn h
+
+/-- looking a node's path name up from any node of its tree returns that very node, for every non-empty
+separator; so do the spellings with the leading separator omitted, with a trailing separator added, and in
+general with any run of separator characters in front and behind (`lstrip`/`rstrip` are character-set strips) -/
+theorem find_full_path_multi (s : Store) (hw : WF s) (hu : SibUnique s) (start v : Nat)
+    (hst : SameTree s start v) (hsp : sep s v ≠ [])
+    (hn : ∀ x ∈ pathNodes s v, s.name x ≠ [] ∧ Free (sep s v) (s.name x)) :
+    findFullPath s start (pathName s v) = some (some v) ∧
+    findFullPath s start ((pathName s v).drop (sep s v).length) = some (some v) ∧
+    findFullPath s start (pathName s v ++ sep s v) = some (some v) ∧
+    (∀ lead trail : Str, (∀ x ∈ lead, x ∈ sep s v) → (∀ x ∈ trail, x ∈ sep s v) →
+      findFullPath s start (lead ++ join (sep s v) (pathNames s v) ++ trail) = some (some v)) := by
+  have key := fun lead trail hl ht =>
+    Store.findFullPath_pathName_multi hw hu start v hst hsp hn lead trail hl ht
+  refine ⟨?_, ?_, ?_, key⟩
+  · have := key (sep s v) [] (fun _ h => h) (by simp)
+    rw [pathName_eq]; simpa using this
+  · have := key [] [] (by simp) (by simp)
+    rw [pathName_eq]; simpa using this
+  · have := key (sep s v) (sep s v) (fun _ h => h) (fun _ h => h)
+    rw [pathName_eq]; simpa [List.append_assoc] using this
+
+example : pathName demo2 2 = [':', ':', 'a', ':', ':', 'b', ':', ':', 'a'] := by decide
+example : findFullPath demo2 3 (pathName demo2 2) = some (some 2) := by decide
+example : findFullPath demo2 0 [':', 'a', ':', ':', 'b', ':', ':', 'a', ':', ':', ':'] = some (some 2) := by decide
+example : SameTree demo2 3 2 ∧ sep demo2 2 = [':', ':'] ∧
+    ∀ x ∈ pathNodes demo2 2, demo2.name x ≠ [] ∧ ∀ c ∈ demo2.name x, c ∉ sep demo2 2 := by decide
 
 end C03
